@@ -127,6 +127,8 @@ def replay_labels(prog: dict, labels: list[dict]) -> dict:
                 continue
             elif nm == "SendCancelRegion":
                 run.send_cancel_region(lb["mid"][1])
+            elif nm == "SendAddInstance":
+                run.send_add_instance(lb["mid"][1])
             elif nm == "PauseWorkflow":
                 run.pause()
             elif nm == "Unpause":
